@@ -523,7 +523,7 @@ impl Check for C02
 	}
 	fn rule(&self) -> String
 	{
-		"valid UTF-8 sources <= 64 KiB, nesting <= 256: (a) repository corpus files (357) pristine, byte-mutated or with 1-3 token edits (delete, duplicate, swap, replace by / insert a random Penne token, stray bracket); (b) generated well-typed programs in plain or random layout with 1-3 token edits; (c) token soup over 67 Penne tokens, bare, inside a function body or in expression position; (d) EVERY token sequence of length <= 3 (quick) / <= 4 (thorough) over a 24-token alphabet in three templates (top level, function body, initialiser expression) — exhaustive; (f) random statement trees of the goto / scope / loop-placement checks (C04-C06 generators: labels, gotos, declarations, uses, blocks, naked and braced branches, loops) and (g) random dependency graphs of constants and structures with and without cycles (C11 generator), all compiled down to IR; (h) 12 recursive constructs (blocks, ifs, else-if chains, parentheses, unary operators, address-of, indices, calls, array and pointer types, array literals) nested 8-256 deep — exhaustive over 10 depths; (e) sets of 2-3 modules drawn from the other streams with imports of each other, of themselves and of a missing file, compiled through one Compiler in the order of src/main.rs. Oracle: the whole pipeline lex..generate_ir..link in an isolated worker ends in success with IR or in failure with >= 1 diagnostic; a panic, LLVM abort, stack overflow, segfault (by site), an Err(anyhow) from the generator, or an empty error list is a failure. Non-trivial: the input got past lexing and parsing (failure, if any, is semantic), or it is a module set; distinct by source.".into()
+		"valid UTF-8 sources <= 64 KiB, nesting <= 256: (a) repository corpus files (357) pristine, byte-mutated or with 1-3 token edits (delete, duplicate, swap, replace by / insert a random Penne token, stray bracket); (b) generated well-typed programs in plain or random layout with 1-3 token edits; (c) token soup over 67 Penne tokens, bare, inside a function body or in expression position; (d) EVERY token sequence of length <= 3 (quick) / <= 4 (thorough) over a 24-token alphabet in three templates (top level, function body, initialiser expression) — exhaustive; (f) random statement trees, and bodies drawn from the exhaustive enumerations, of the goto / scope / loop-placement checks (C04-C06 generators: labels, gotos, declarations, uses, blocks, naked and braced branches, loops) and (g) random dependency graphs of constants and structures with and without cycles (C11 generator), all compiled down to IR; (h) 12 recursive constructs (blocks, ifs, else-if chains, parentheses, unary operators, address-of, indices, calls, array and pointer types, array literals) nested 8-256 deep — exhaustive over 10 depths — and runs of 126-1000 `&` in an expression, a length and before an assignment (the counter's limit is E390); (e) sets of 2-3 modules drawn from the other streams with imports of each other, of themselves and of a missing file, compiled through one Compiler in the order of src/main.rs. Oracle: the whole pipeline lex..generate_ir..link in an isolated worker ends in success with IR or in failure with >= 1 diagnostic; a panic, LLVM abort, stack overflow, segfault (by site), an Err(anyhow) from the generator, or an empty error list is a failure. Non-trivial: the input got past lexing and parsing (failure, if any, is semantic), or it is a module set; distinct by source.".into()
 	}
 	fn assumptions(&self) -> Vec<String>
 	{
